@@ -338,7 +338,7 @@ func genCase(port string) func(t *rapid.T) Case {
 	}
 }
 
-const rule = "rapid: live streams of the C04 domain (channel, system common, sysex, real-time incl. active sensing, running status, interleaved real-time) plus unpaired/undefined bytes (F4 F5 F7 F9 FD) between and inside messages, chunked with inter-arrival times 0..60000 ms; tempo 20..400 BPM (fractional), resolution 24..15360; oracle: track = tempo event (within the 24-bit field's resolution) + exactly the channel messages the reference receiver sees, unchanged and in order, each delta within one tick of the exact rational conversion of the arrival time difference; every other stored event must be a legal SMF event; after Close+WriteTo the strict SMF parser accepts the bytes and ReadFrom returns the same events; non-trivial = >= 3 channel messages with a real-time / system-common message between two of them; distinct by case hash"
+const rule = "rapid: live streams of the C04 domain (1..30 messages, one stream in 25 has 300..1500; channel, system common, sysex, real-time incl. active sensing, running status, interleaved real-time) plus unpaired/undefined bytes (F4 F5 F7 F9 FD) between and inside messages, chunked with inter-arrival times 0..60000 ms; tempo 20..400 BPM (fractional), resolution 24..15360; oracle: track = tempo event (within the 24-bit field's resolution) + exactly the channel messages the reference receiver sees, unchanged and in order, each delta within one tick of the exact rational conversion of the arrival time difference; every other stored event must be a legal SMF event; after Close+WriteTo the strict SMF parser accepts the bytes and ReadFrom returns the same events; non-trivial = >= 3 channel messages with a real-time / system-common message between two of them; distinct by case hash"
 
 var fake = ev.NewCheck("C13", "track-record-fake-port", rule+"; port = deterministic drivers.In of the harness (exact clock)", genCase("fake"), run)
 var tdrv = ev.NewCheck("C13", "track-record-testdrv", rule+"; port = testdrv with Driver.Sleep as clock (first recorded delta exempt: that driver's first time stamp contains the wall clock)", genCase("testdrv"), run)
